@@ -61,8 +61,27 @@ type violationReport struct {
 	Index     uint64          `json:"index"`
 	Replay    *kit.ReplayFile `json:"replay"`
 	Count     int             `json:"count"`
+	FreshOK   bool            `json:"fresh_ok"` // the worker has seen this replay file reproduce in a process of its own
+	tries     int
 	path      string
 	freshOnly bool
+}
+
+// freshReproduces replays rf in a new process (as the master will) and says whether the same class and signature show.
+// State that the code under test keeps from one execution to the next inside a process (a package-level cache) can make
+// a run violate only because of the runs before it, or only without them; such an instance is no use as a replay file.
+func freshReproduces(rf *kit.ReplayFile, n int) bool {
+	path := filepath.Join(os.Getenv("VERIF_DIR"), "bin", fmt.Sprintf("fresh-%d-%d.json", os.Getpid(), n))
+	if err := os.WriteFile(path, rf.JSON(), 0o644); err != nil {
+		return false
+	}
+	defer os.Remove(path)
+	ctx, cancel := context.WithTimeout(context.Background(), 15*time.Second)
+	defer cancel()
+	cmd := exec.CommandContext(ctx, os.Args[0], "-test.run", "^TestSim$", "-test.timeout", "0", "-test.cpu", "1")
+	cmd.Env = append(os.Environ(), "SIM_ROLE=replay", "SIM_FILE="+path)
+	ob, _ := cmd.CombinedOutput()
+	return strings.Contains(string(ob), fmt.Sprintf("REPLAY-RESULT class=%s signature=%s\n", rf.Class, rf.Signature))
 }
 
 type workerResult struct {
@@ -130,6 +149,7 @@ func worker(t *testing.T) {
 	nt := map[uint64]struct{}{}
 	il := map[uint64]struct{}{}
 	minimised := 0
+	freshN := 0
 	finish := func() {
 		for h := range nt {
 			res.NonTrivial = append(res.NonTrivial, h)
@@ -228,9 +248,37 @@ func worker(t *testing.T) {
 				continue
 			}
 			key := out.Violation.Class + "|" + out.Violation.Signature
-			if vr, ok := res.Violations[key]; ok {
-				vr.Count++
-				continue
+			prev := res.Violations[key]
+			if prev != nil {
+				prev.Count++
+				if prev.FreshOK || prev.tries >= 5 || p.Meta().Nondeterministic {
+					continue
+				}
+				// the instance kept so far does not reproduce in a process of its own: try this one
+			}
+			keep := func(c *violationReport) {
+				freshN++
+				c.FreshOK = freshReproduces(c.Replay, freshN)
+				if !c.FreshOK && c.Replay.Minimised {
+					// minimised against the state this process has accumulated: the run as it was found, then
+					orig := *c.Replay
+					orig.Lanes, orig.Minimised, orig.Execs = tape.Snapshot(), false, 0
+					orig.Scenario, orig.LogTail, orig.Message = out.Scenario, tail(out.Log, 40), out.Violation.Message
+					freshN++
+					if freshReproduces(&orig, freshN) {
+						c.Replay, c.FreshOK = &orig, true
+					}
+				}
+				if prev == nil {
+					c.tries = 1
+					res.Violations[key] = c
+					return
+				}
+				prev.tries++
+				if c.FreshOK {
+					c.Count, c.tries = prev.Count, prev.tries
+					res.Violations[key] = c
+				}
 			}
 			lanes := tape.Snapshot()
 			if p.Meta().Nondeterministic {
@@ -250,9 +298,9 @@ func worker(t *testing.T) {
 				// control, or it keeps state across executions in one process (a package-level variable), in which case the
 				// tape still reproduces the violation in a FRESH process. Hand it to the master unminimised: it replays every
 				// violation in a fresh process anyway and reports only what reproduces there.
-				res.Violations[key] = &violationReport{Phase: ph.Name, Index: i, Count: 1, freshOnly: true, Replay: &kit.ReplayFile{Property: p.ID(), Class: out.Violation.Class,
+				keep(&violationReport{Phase: ph.Name, Index: i, Count: 1, freshOnly: true, Replay: &kit.ReplayFile{Property: p.ID(), Class: out.Violation.Class,
 					Signature: out.Violation.Signature, Message: out.Violation.Message + "\n  (did not show again when re-executed in the same process: reproduces only from a fresh process, i.e. the code under test carries state from one execution to the next)",
-					VerifSeed: base, RunIndex: i, RunSeed: tape.Seed, Tier: tier, Phase: ph.Name, Lanes: lanes, Fixed: tape.Fixed, Scenario: out.Scenario, LogTail: tail(out.Log, 40)}}
+					VerifSeed: base, RunIndex: i, RunSeed: tape.Seed, Tier: tier, Phase: ph.Name, Lanes: lanes, Fixed: tape.Fixed, Scenario: out.Scenario, LogTail: tail(out.Log, 40)}})
 				res.Nondet = append(res.Nondet, fmt.Sprintf("%s/%d: %s [%s]", ph.Name, i, out.Violation.Class, out.Violation.Signature))
 				continue
 			}
@@ -267,7 +315,7 @@ func worker(t *testing.T) {
 					rf.Lanes, rf.Scenario, rf.LogTail, rf.Message, rf.Minimised, rf.Execs = ml, mo.Scenario, tail(mo.Log, 40), mo.Violation.Message, true, execs
 				}
 			}
-			res.Violations[key] = &violationReport{Phase: ph.Name, Index: i, Replay: rf, Count: 1}
+			keep(&violationReport{Phase: ph.Name, Index: i, Replay: rf, Count: 1})
 		}
 	}
 	finish()
@@ -548,6 +596,9 @@ func master() int {
 	for k, c := range candidates {
 		keys = append(keys, k)
 		sort.Slice(c, func(i, j int) bool {
+			if c[i].FreshOK != c[j].FreshOK {
+				return c[i].FreshOK
+			}
 			if c[i].Phase != c[j].Phase {
 				return c[i].Phase < c[j].Phase
 			}
